@@ -119,8 +119,28 @@ func c08Property(t *rapid.T) {
 		cfg.settings[config.ResetOnLogout] = "Y"
 	}
 	drawExtras(t, c, &cfg)
+	// the counterparties may have agreed on NextExpectedMsgSeqNum (789) in the Logon: the statement
+	// holds for that configuration as for any other
+	use789 := rapid.IntRange(0, 3).Draw(t, "next-expected-in-logon") == 0 && cfg.begin >= "FIX.4.4"
+	if use789 {
+		cfg.settings[config.EnableNextExpectedMsgSeqNum] = "Y"
+		c.Class("config:EnableNextExpectedMsgSeqNum")
+	}
 	s := newSim(t, c, cfg)
 	defer s.close()
+	logonBody := func(t *rapid.T, reset bool) []fixwire.Field {
+		b := s.p.LogonBody(30, reset)
+		if use789 && rapid.IntRange(0, 5).Draw(t, "789-present") != 0 {
+			// what the counterparty says it expects next from the engine: right, behind (the engine
+			// fills in or replays), or ahead of anything the engine has sent (the Logon is refused)
+			n := s.r.S() + rapid.SampledFrom([]int{0, 0, 0, -1, -3, 1, 4}).Draw(t, "789-delta")
+			if n < 1 {
+				n = 1
+			}
+			b = append(b, fixwire.F(789, strconv.Itoa(n)))
+		}
+		return b
+	}
 	mon := &c08mon{feat: map[string]bool{}}
 	s.after = append(s.after, mon.after)
 	stopped := func() bool { return s.r.V.Stopped() }
@@ -138,7 +158,7 @@ func c08Property(t *rapid.T) {
 			f = []byte(rapid.SampledFrom([]string{"8=FIX.4.2\x019=5\x0135=D\x0110=000\x01", "8=\x019=\x0135=\x0110=\x01", "8=FIX.4.2\x019=12\x0135=D\x0134=\x0110=000\x01", "8=FIX.4.2\x019=0\x0110=000\x01",
 				"8=FIX.4.2\x019=3\x01x\x0110=1\x01"}).Draw(t, "bytes"))
 		case "A":
-			f = s.p.Frame("A", seq, s.p.LogonBody(30, rapid.IntRange(0, 4).Draw(t, "flag") == 0 && cfg.begin != "FIX.4.0"), peer.Opt{})
+			f = s.p.Frame("A", seq, logonBody(t, rapid.IntRange(0, 4).Draw(t, "flag") == 0 && cfg.begin != "FIX.4.0"), peer.Opt{})
 		case "D":
 			f = s.p.Frame("D", seq, []fixwire.Field{fixwire.F(11, "X"+strconv.Itoa(seq)), fixwire.F(55, "IBM"), fixwire.F(54, "1")}, peer.Opt{})
 		case "1":
@@ -198,7 +218,7 @@ func c08Property(t *rapid.T) {
 			if s.p.NextOut < s.r.T() {
 				s.p.NextOut = s.r.T()
 			}
-			_, f := s.p.Next("A", s.p.LogonBody(30, false))
+			_, f := s.p.Next("A", logonBody(t, false))
 			s.deliver(f, true)
 		},
 		"inject": func(t *rapid.T) {
